@@ -351,6 +351,17 @@ class _RInterp(MiniInterp):
                 return gen()
             if isinstance(n.func, ast.Attribute) and isinstance(n.func.value, ast.Name) and n.func.value.id == "self":
                 return self.invoke_self(n.func.attr, self._args(n))
+            if isinstance(n.func, ast.Name) and n.func.id not in self.loc and n.func.id not in self.consts:
+                # a module-level helper function of the telnet module (no instance state): interpreted in place
+                h = self.reader.mod.find(n.func.id)
+                if isinstance(h, ast.FunctionDef) and getattr(h, "_parent", None) is self.reader.mod.tree:
+                    self.reader.depth += 1
+                    if self.reader.depth > 30:
+                        raise AnalysisError("C38: helper recursion in the reader model")
+                    try:
+                        return _RInterp(_noself(h), self.reader).call(*self._args(n))
+                    finally:
+                        self.reader.depth -= 1
         return MiniInterp.ev(self, n)
 
     def invoke_self(self, name, args):
@@ -886,10 +897,13 @@ def check(ctx):
             ctx.check(s in handled, "reader/state-has-branch", f"{qd} | state {s!r}",
                       f"state {s!r} (assigned in {assigned[s]}) has no branch in dataReceived: the next byte raises and the connection's parser is stuck")
 
-    with ctx.section('reader/state-on-instance'):
+    from sa.props._lib_h import abstain as _abst
+    with _abst(ctx, 'reader/state-on-instance', 'reader-samples/transition-table and reader/round-trip (bounded)'):
         # the function that walks the bytes: dataReceived itself or the private helper (possibly a generator) it hands the chunk to
         byte_loops = [(name, f, lp) for name in sorted(parser) for cls_, f in allm.get(name, []) for lp in ast.walk(f)
                       if isinstance(lp, ast.For) and isinstance(lp.iter, ast.Call) and src(lp.iter.func) == "iterbytes"]
+        # when the bytes are not walked one by one by a for-loop (an index cursor consuming runs, ...) which locals live across bytes cannot be read off
+        # the loop structure: the group abstains and the clause is left to the evaluated (state, byte) table and the segmentation corpus
         ctx.need(len(byte_loops) == 1, "the parser's loop `for b in iterbytes(<chunk>)`")
         pname, pfn, loop_ = byte_loops[0]
         stored_in_loop = {x.id for x in ast.walk(loop_) if isinstance(x, ast.Name) and isinstance(x.ctx, ast.Store)}
